@@ -1,6 +1,18 @@
 #!/usr/bin/env python3
 """tools/trymut.py <Cxx[,Cyy]> <file> <old> <new>  — apply a one-off textual mutation to /repo, run the checks, restore."""
-import subprocess,sys
+# EVIDENCE-SAVE: a check run against a mutated /repo must not leave its evidence file behind
+import shutil,subprocess,sys
+
+def run_check(pr):
+    import os
+    ev='/verif/evidence/%s.json'%pr; bak='/tmp/.evidence-%s-%d.json'%(pr,os.getpid())
+    had=os.path.exists(ev)
+    if had: shutil.copy(ev,bak)
+    try:
+        return subprocess.run(['/verif/check',pr],capture_output=True,text=True)
+    finally:
+        if had: shutil.move(bak,ev)
+        elif os.path.exists(ev): os.remove(ev)
 props,path,old,new=sys.argv[1],sys.argv[2],sys.argv[3],sys.argv[4]
 p='/repo/'+path
 s=open(p).read()
@@ -11,8 +23,10 @@ try:
     if b.returncode!=0: print('DOES NOT COMPILE',b.stderr[-500:])
     else:
         for pr in props.split(','):
-            r=subprocess.run(['/verif/check',pr],capture_output=True,text=True)
+            r=run_check(pr)
             lines=[l for l in r.stdout.splitlines() if l.startswith('VIOLATION') or l.startswith('check ')]
             print(pr,'CAUGHT' if r.returncode==1 else 'MISSED','|',' ; '.join(l[:160] for l in lines[-3:]))
 finally:
     subprocess.run(['git','-C','/repo','checkout','--','.'])
+
+
